@@ -5,7 +5,6 @@ import jax
 import jax.numpy as jnp
 
 from fdtdx.core.jax.pytrees import TreeClass, autoinit, frozen_field, frozen_private_field
-from fdtdx.core.misc import index_1d_array
 from fdtdx.interfaces.state import RecordingState
 
 
@@ -175,17 +174,13 @@ class LinearReconstructEveryK(TimeStepFilter):
         self = self.aset("_array_size", len(all_time_steps), create_new_ok=True)
 
         # mapping between time steps and array indices
-        index_tmp = jnp.arange(0, self._array_size, dtype=jnp.int32)
-        time_indices = jnp.zeros(shape=(self._time_steps_max,), dtype=jnp.int32)
-        time_indices = time_indices.at[self._save_time_steps].set(index_tmp)
-        for _ in range(self.k - 1):
-            rolled = jnp.roll(time_indices, 1)
-            time_indices = jnp.where(
-                time_indices == 0,
-                rolled,
-                time_indices,
-            )
-            time_indices = time_indices.at[: self.k].set(0)
+        # index of the last saved step at or before each time step (0 before the first saved step)
+        time_indices = jnp.searchsorted(
+            self._save_time_steps,
+            jnp.arange(self._time_steps_max, dtype=jnp.int32),
+            side="right",
+        )
+        time_indices = jnp.maximum(time_indices - 1, 0).astype(jnp.int32)
         self = self.aset("_time_to_arr_idx", time_indices, create_new_ok=True)
         return self, self._array_size, input_shape_dtypes, {}
 
@@ -237,8 +232,8 @@ class LinearReconstructEveryK(TimeStepFilter):
         def linear_reconstruct():
             arr_idx = arr_indices[0]
 
-            prev_save_time = index_1d_array(self._time_to_arr_idx, arr_idx)
-            next_save_time = index_1d_array(self._time_to_arr_idx, arr_idx + 1)
+            prev_save_time = self._save_time_steps[arr_idx]
+            next_save_time = self._save_time_steps[arr_idx + 1]
             interp_factor = (time_idx - prev_save_time) / (next_save_time - prev_save_time)
 
             prev_vals, next_vals = values[0], values[1]
